@@ -172,6 +172,10 @@ fn catalogue() -> Vec<(&'static str, &'static str, u32, Oracle)> {
             Some((Value::Text(t), Some(u))) if t == "200-300" && u == "ml" => Ok(()),
             other => Err(format!("quantity {other:?}, expected text \"200-300\" with unit ml")),
         }),
+        ("range without %", "@flour{2-3 cups}\n", R, |r| match qty_of(r, 0) {
+            Some((Value::Text(t), None)) if t == "2-3 cups" => Ok(()),
+            other => Err(format!("quantity {other:?}, expected the text value \"2-3 cups\" without unit")),
+        }),
         ("unit without %", "@water{1 L}\n", U, |r| match qty_of(r, 0) {
             Some((Value::Text(t), None)) if t == "1 L" => Ok(()),
             other => Err(format!("quantity {other:?}, expected the text value \"1 L\" without unit")),
@@ -309,7 +313,7 @@ pub fn replay(case: &J) -> Vec<Violation> {
 
 pub fn run(tier: Tier) {
     let c = ctx();
-    c.set_rule("Part A (differential): (i) every core-only canonical model recipe (L1 x 4 contexts, L2 pairs and triples, L3 block sequences) in every spelling with <= d deviations, (ii) every token-alphabet string up to n symbols that an independent syntactic classifier accepts as free of reinterpreted constructs and that parses without error with no extensions: the complete result (recipe JSON, validity, ordered diagnostics) must be identical under all 192 extension subsets (bundled units); Part B (catalogue): 16 sources using one extension's syntax, under every subset lacking that extension, must read as the core text the documentation describes; non-trivial = recipes / strings compared under all subsets; distinct = distinct sources");
+    c.set_rule("Part A (differential): (i) every core-only canonical model recipe (L1 x 4 contexts, L2 pairs and triples, L3 block sequences) in every spelling with <= d deviations, (ii) every token-alphabet string up to n symbols that an independent syntactic classifier accepts as free of reinterpreted constructs and that parses without error with no extensions: the complete result (recipe JSON, validity, ordered diagnostics) must be identical under all 192 extension subsets (bundled units); Part B (catalogue): 17 sources using one extension's syntax, under every subset lacking that extension, must read as the core text the documentation describes; non-trivial = recipes / strings compared under all subsets; distinct = distinct sources");
     let subs = Arc::new(subsets());
     let cfg = Config { extended: false };
     // (i) model recipes
@@ -391,6 +395,36 @@ pub fn run(tier: Tier) {
         }
         if idx % 100003 == 77 {
             ctx().sample(json!({"core-only string": s}));
+        }
+        differential(&s, &sb, local)
+    });
+    if c.has_violations() {
+        return;
+    }
+    // block-level combinations: front matter together with `>>` lines, sections, paragraphs
+    let blocks = Arc::new(crate::strings::Alphabet::new(
+        "A_blocks_core",
+        &["---\n", "k: v\n", ">> a: b\n", ">> c d : e\n", "step @a{1%g}\n", "more #p text\n", "\n", "= s\n", "> p\n", "-- c\n", "~{1%min}\n"],
+    ));
+    c.part(json!({"alphabet": blocks.name, "symbols": blocks.syms}));
+    let nb = tier.pick(5, 6);
+    let (bk, sb) = (blocks.clone(), subs.clone());
+    sweep(&format!("C02 A(ii): block alphabet strings of 0..={nb} symbols x 192 subsets"), blocks.count_upto(nb), {
+        let bk = blocks.clone();
+        move |idx| {
+            let mut seq = Vec::new();
+            let mut s = String::new();
+            bk.decode_upto(idx, nb, &mut seq);
+            bk.concat(&seq, &mut s);
+            json!({"kind": "differential", "input": s})
+        }
+    }, move |idx, local| {
+        let mut seq = Vec::new();
+        let mut s = String::new();
+        bk.decode_upto(idx, nb, &mut seq);
+        bk.concat(&seq, &mut s);
+        if !is_core_only(&s) {
+            return vec![];
         }
         differential(&s, &sb, local)
     });
